@@ -214,7 +214,7 @@ def po_reward(S):
     m = w.market
     r0 = m.reward
     m.update()
-    S.check("reward+=interval*60*held/supply", S.eq(m.reward - r0, exact(w.data["interval"]) * 60 * m.glp_amount / w.data["glp"]))
+    S.check("reward+=interval*60*held/supply", S.eq(m.reward, r0 + exact(w.data["interval"]) * 60 * m.glp_amount / w.data["glp"]))
     S.check("reward-never-decreases", m.reward >= r0)
 
 
